@@ -742,7 +742,11 @@ class Message:
         except ValueError as e:
             raise error.MalformedUrlError("Port must be numeric") from e
 
-        self.remote = UndecidedRemote(parsed.scheme, parsed.netloc)
+        try:
+            self.remote = UndecidedRemote(parsed.scheme, parsed.netloc)
+        except ValueError as e:
+            # eg. IPvFuture literals, which urllib accepts but ipaddress does not
+            raise error.MalformedUrlError("Unsupported IP literal") from e
 
         is_ip_literal = parsed.netloc.startswith("[") or (
             parsed.hostname.count(".") == 3
